@@ -20,14 +20,66 @@ open Larking Larking.Lexer Larking.Trie
 theorem translator_complete : Gen.missing = [] := by decide
 
 theorem skeleton_unchanged :
-    (Gen.Skel.conds_path_addRule, Gen.Skel.conds_lexTemplate, Gen.Skel.conds_lexSegments,
-     Gen.Skel.conds_lexSegment, Gen.Skel.conds_lexVariable, Gen.Skel.conds_lexFieldPath,
-     Gen.Skel.conds_lexVerb, Gen.Skel.conds_lexIdent, Gen.Skel.conds_lexLiteral, Gen.Skel.conds_lexer_emit,
-     Gen.Skel.conds_Mux_registerService, Gen.Skel.conds_state_appendHandler)
-  = (Expected.C16.conds_path_addRule, Expected.C16.conds_lexTemplate, Expected.C16.conds_lexSegments,
-     Expected.C16.conds_lexSegment, Expected.C16.conds_lexVariable, Expected.C16.conds_lexFieldPath,
-     Expected.C16.conds_lexVerb, Expected.C16.conds_lexIdent, Expected.C16.conds_lexLiteral, Expected.C16.conds_lexer_emit,
-     Expected.C16.conds_Mux_registerService, Expected.C16.conds_state_appendHandler) := rfl
+    (Gen.Skel.conds_path_addRule,
+     Gen.Skel.stmts_path_addRule,
+     Gen.Skel.conds_path_addPath,
+     Gen.Skel.stmts_path_addPath,
+     Gen.Skel.conds_path_addVariable,
+     Gen.Skel.stmts_path_addVariable,
+     Gen.Skel.conds_path_search,
+     Gen.Skel.stmts_path_search,
+     Gen.Skel.conds_lexTemplate,
+     Gen.Skel.stmts_lexTemplate,
+     Gen.Skel.conds_lexSegments,
+     Gen.Skel.stmts_lexSegments,
+     Gen.Skel.conds_lexSegment,
+     Gen.Skel.stmts_lexSegment,
+     Gen.Skel.conds_lexVariable,
+     Gen.Skel.stmts_lexVariable,
+     Gen.Skel.conds_lexFieldPath,
+     Gen.Skel.stmts_lexFieldPath,
+     Gen.Skel.conds_lexVerb,
+     Gen.Skel.stmts_lexVerb,
+     Gen.Skel.conds_lexIdent,
+     Gen.Skel.stmts_lexIdent,
+     Gen.Skel.conds_lexLiteral,
+     Gen.Skel.stmts_lexLiteral,
+     Gen.Skel.conds_lexer_emit,
+     Gen.Skel.stmts_lexer_emit,
+     Gen.Skel.conds_Mux_registerService,
+     Gen.Skel.stmts_Mux_registerService,
+     Gen.Skel.conds_state_appendHandler,
+     Gen.Skel.stmts_state_appendHandler)
+  = (Expected.C16.conds_path_addRule,
+     Expected.C16.stmts_path_addRule,
+     Expected.C16.conds_path_addPath,
+     Expected.C16.stmts_path_addPath,
+     Expected.C16.conds_path_addVariable,
+     Expected.C16.stmts_path_addVariable,
+     Expected.C16.conds_path_search,
+     Expected.C16.stmts_path_search,
+     Expected.C16.conds_lexTemplate,
+     Expected.C16.stmts_lexTemplate,
+     Expected.C16.conds_lexSegments,
+     Expected.C16.stmts_lexSegments,
+     Expected.C16.conds_lexSegment,
+     Expected.C16.stmts_lexSegment,
+     Expected.C16.conds_lexVariable,
+     Expected.C16.stmts_lexVariable,
+     Expected.C16.conds_lexFieldPath,
+     Expected.C16.stmts_lexFieldPath,
+     Expected.C16.conds_lexVerb,
+     Expected.C16.stmts_lexVerb,
+     Expected.C16.conds_lexIdent,
+     Expected.C16.stmts_lexIdent,
+     Expected.C16.conds_lexLiteral,
+     Expected.C16.stmts_lexLiteral,
+     Expected.C16.conds_lexer_emit,
+     Expected.C16.stmts_lexer_emit,
+     Expected.C16.conds_Mux_registerService,
+     Expected.C16.stmts_Mux_registerService,
+     Expected.C16.conds_state_appendHandler,
+     Expected.C16.stmts_state_appendHandler) := rfl
 
 /-- the template lexer is total: any string (any runes, any classification) gives tokens or
 an error, never a crash — in particular the fixed token array cannot overflow. -/
